@@ -30,6 +30,11 @@ func (c *opCircuit) Define(api frontend.API) error {
 		probe(api, 1, api.Div(c.X, c.Y))
 	case "divunchecked":
 		probe(api, 1, api.DivUnchecked(c.X, c.Y))
+	case "divconst":
+		// a compile-time constant dividend (c.n, possibly zero) over a variable divisor
+		probe(api, 1, api.Div(c.n, c.Y))
+	case "divuncheckedconst":
+		probe(api, 1, api.DivUnchecked(c.n, c.Y))
 	case "inverse":
 		probe(api, 1, api.Inverse(c.X))
 	case "tobinary":
@@ -96,6 +101,17 @@ func opSpec(op string, n int, q, x, y, z, t *big.Int) (bool, func(p map[int][]*b
 		}
 		want := new(big.Int).ModInverse(y, q)
 		want.Mul(want, x).Mod(want, q)
+		return true, func(p map[int][]*big.Int) string { return eqInts(p[1], want) }
+	case "divconst", "divuncheckedconst":
+		cst := new(big.Int).Mod(big.NewInt(int64(n)), q)
+		if y.Sign() == 0 {
+			if op == "divuncheckedconst" && cst.Sign() == 0 {
+				return true, none // 0/0 of the unchecked division: unconstrained quotient
+			}
+			return false, none
+		}
+		want := new(big.Int).ModInverse(y, q)
+		want.Mul(want, cst).Mod(want, q)
 		return true, func(p map[int][]*big.Int) string { return eqInts(p[1], want) }
 	case "inverse":
 		if x.Sign() == 0 {
@@ -203,6 +219,17 @@ func opCase(op string, n int) *gcase {
 			if op == "divunchecked" && x.Sign() == 0 && y.Sign() == 0 {
 				desc = "free-verdict:" + desc
 			}
+			if op == "divuncheckedconst" && n == 0 && y.Sign() == 0 {
+				desc = "free-verdict:" + desc
+			}
+			if (op == "divconst" || op == "divuncheckedconst") && tape.Choose(simrt.SWorkload, 3) == 0 {
+				y = bi(0)
+				sat, check = opSpec(op, n, q, x, y, z, t)
+				desc = fmt.Sprintf("x=%s y=%s z=%s t=%s", x, y, z, t)
+				if op == "divuncheckedconst" && n == 0 {
+					desc = "free-verdict:" + desc
+				}
+			}
 			return &opCircuit{X: x, Y: y, Z: z, T: t, op: op, n: n}, sat, check, desc
 		},
 	}
@@ -210,6 +237,7 @@ func opCase(op string, n int) *gcase {
 
 var c05Cases = []*gcase{
 	opCase("iszero", 0), opCase("div", 0), opCase("divunchecked", 0), opCase("inverse", 0),
+	opCase("divconst", 0), opCase("divconst", 5), opCase("divuncheckedconst", 0), opCase("divuncheckedconst", 3),
 	opCase("tobinary", 0), opCase("tobinary", 4), opCase("tobinary", 1), opCase("tobinary", 5), opCase("tobinary", -1), opCase("tobinary", -3),
 	opCase("xor", 0), opCase("select", 0), opCase("lookup2", 0), opCase("cmp", 0),
 	opCase("leq", 0), opCase("leqconst", 9), opCase("leqconst", 31), opCase("boolean", 0), opCase("crumb", 0), opCase("different", 0),
